@@ -53,7 +53,8 @@ def gen(tier, rng):
     out = []
     n = 250 if tier == "quick" else 15000
     for fam in ("token", "introspection", "device", "err-basic", "err-device", "err-revocation"):
-        out += [(l, "parsed/" + lab) for (l, lab) in D.gen_decode(fam, tier, rng, n_docs=n)]
+        # (map-typed extension lines carry no round trip: they belong to C06 / C15 / C19)
+        out += [(l, "parsed/" + lab) for (l, lab) in D.gen_decode(fam, tier, rng, n_docs=n) if l.split(" ")[2] != "M"]
     strs = D.STRS
     m = 300 if tier == "quick" else 20000
     for i in range(m):
